@@ -9,7 +9,9 @@ RULE = ("case = (generator type, construction path, jds, sizes, build callbacks,
         "x {homogeneous, per-edge names}; exhaustive small family (N<=2 with column sums <=3 and N<=3 with sums <=2 in quick; N<=2 sums <=4 and N<=3 sums <=3 in thorough; <=2 topologies/orbits, all permutations, every "
         "builder that accepts the motif size) + seeded random (N<=12, <=4 orbits) + malformed stream; compared: the "
         "three columns entry by entry, callback calls, joint_degrees; a share of the random cases are histories (2-3 "
-        "generations on the same algorithm object / jds list, returned object damaged in between); the DESIGN section-3 replay is corpus entry 1. "
+        "generations on the same algorithm object / jds list, returned object damaged in between); the DESIGN section-3 replay is corpus entry 1; "
+        "10 corpus entries are custom motifs with per-edge names whose vertex group repeats a vertex (clique / star / diamond / "
+        "cycle builders: one callback result holds the same vertex pair at two positions). "
         "Non-trivial = valid case with >=2 motif instances of which one has >=2 edges or is a bare edge; distinct by "
         "(type, jds, sizes, builders, names, indices, pis)")
 EXHAUSTIVE = {"quick": True, "thorough": True}
@@ -43,8 +45,30 @@ ALL_CUSTOM = [G.CLIQUE, G.CYCLE, G.DIAMOND, G.BARE, G.PATH2, G.STAR, G.NONE, G.P
 ALL_FAST = [G.CLIQUE, G.CYCLE, G.DIAMOND, G.PATH2, G.STAR, G.NONE]
 
 
+def repeated_pair_corpus():
+    """custom motifs with PER-EDGE names whose vertex group repeats a vertex, so that one build call returns the same
+    vertex pair at two positions (a hub drawn twice into one instance): the row's name must be the name at ITS
+    position, not at the first position holding an equal pair (C02-r2-1: names[es.index(e)])"""
+    out = []
+
+    def add(jds, sizes, codes, mis, pis, base=10):
+        out.append({"tag": G.MOTIFS, "via": "direct", "jds": jds, "sizes": sizes, "codes": codes,
+                    "names": G.names_for(G.MOTIFS, codes, sizes, mis, base=base), "mis": mis, "pis": pis})
+    add([[2], [1]], [3], [G.CLIQUE], [[0]], [[0, 1, 2]])                 # (0,0,1): (0,0),(0,1),(0,1)
+    add([[2], [1]], [3], [G.CLIQUE], [[0]], [[2, 0, 1]], base=300)       # (1,0,0): (1,0),(1,0),(0,0)
+    add([[1], [2]], [3], [G.STAR], [[0]], [[0, 1, 2]])                   # hub 0, leaf 1 twice
+    add([[2], [2]], [4], [G.CLIQUE], [[0]], [[0, 2, 1, 3]])              # (0,1,0,1)
+    add([[2], [1], [1]], [4], [G.DIAMOND], [[0]], [[0, 2, 1, 3]])
+    add([[3], [1]], [4], [G.STAR], [[0]], [[3, 0, 1, 2]], base=7)        # hub 1, leaf 0 three times
+    add([[2], [2]], [2], [G.CYCLE], [[0]], [[0, 1, 2, 3]])               # (0,0) and (1,1): cycle on a repeated vertex
+    add([[2, 0], [1, 1], [1, 1]], [2, 1], [G.STAR], [[0, 1]], [[0, 1, 2, 3], [0, 1]])   # two-orbit motif
+    add([[2, 1], [2, 1]], [2, 1], [G.CLIQUE], [[1, 0]], [[0, 2, 1, 3], [1, 0]])
+    add([[4], [2], [3]], [3], [G.CLIQUE], [[0]], [[0, 1, 4, 2, 3, 6, 5, 7, 8]])   # three instances, each with a repeat
+    return out
+
+
 def corpus():
-    return G.common_corpus()
+    return G.common_corpus() + repeated_pair_corpus()
 
 
 def shape_cases(N_max, maxsum, tags, vias):
